@@ -173,9 +173,12 @@ def expectPar (par : Par) (start stop : Int) : RPar :=
       let a := max start cs; let b := min stop (cs + seq.length)
       .chunk a b (stretch cs seq a b)
 
-/-- a whole-chromosome parent and the chunk `[0,len)` carry the same sequence at the same coordinates -/
+/-- a whole-chromosome parent and the chunk `[0,len)` carry the same sequence at the same coordinates; a
+    sequence-less parent and no parent both carry no sequence (the property speaks about sequences only: a
+    zero-length result drops a sequence-less parent, `_subset_parent`'s `start == end` case — not demanded otherwise) -/
 def RPar.norm : RPar → RPar
   | .whole seq => .chunk 0 seq.length seq
+  | .noseq => .none
   | p => p
 
 /-- the member's own (spliced) sequence on a result parent: the bases of member ∩ parent range, oriented -/
